@@ -20,11 +20,11 @@ type Val struct {
 	S  string  `json:"s,omitempty"`
 }
 
-func Int(i int64) Val     { return Val{K: "int", I: i} }
-func Uint(u uint64) Val   { return Val{K: "uint", U: u} }
-func Bool(b bool) Val     { return Val{K: "bool", B: b} }
-func Null() Val           { return Val{K: "null"} }
-func Str(s string) Val    { return Val{K: "str", S: s} }
+func Int(i int64) Val   { return Val{K: "int", I: i} }
+func Uint(u uint64) Val { return Val{K: "uint", U: u} }
+func Bool(b bool) Val   { return Val{K: "bool", B: b} }
+func Null() Val         { return Val{K: "null"} }
+func Str(s string) Val  { return Val{K: "str", S: s} }
 func Float(f float64) Val {
 	switch {
 	case math.IsNaN(f):
